@@ -799,6 +799,138 @@ def run_case(case: dict) -> dict:
 
 
 # --------------------------------------------------------------------------
+# program route: whole FPy functions evaluated under a stochastic context
+
+_PROGS = None
+
+
+def progs():
+    global _PROGS
+    if _PROGS is None:
+        import importlib
+        _PROGS = importlib.import_module('workloads.c17_progs')
+    return _PROGS
+
+
+def gen_prog_case(r: random.Random, tier: str) -> dict:
+    # formats wide enough that no intermediate of the programs becomes zero or overflows
+    # (a zero or non-finite operand consumes no draw, and the count below assumes none occurs)
+    fam = r.choice(['IEEE', 'IEEE', 'MPFloat', 'MPSFloat', 'MPFixed', 'EFloat'])
+    params = gen_params(r, fam)
+    if fam == 'IEEE':
+        params = {'es': r.randint(4, 5), 'nbits': r.randint(9, 16)}
+    if fam == 'EFloat':
+        params = {'es': 5, 'nbits': r.randint(9, 14), 'enable_inf': r.random() < 0.5,
+                  'nan_kind': r.choice(['IEEE_754', 'MAX_VAL', 'NEG_ZERO', 'NONE']), 'eoffset': r.randint(-2, 2)}
+    if fam == 'MPSFloat':
+        params = {'p': r.randint(2, 8), 'emin': r.randint(-14, -9)}
+    if fam == 'MPFixed':
+        params = {'nmin': r.randint(-12, -8)}
+    return {'type': 'prog', 'family': fam, 'params': params, 'mode': r.choice(MODES), 'k': r.randint(1, 6),
+            'overflow': gen_overflow(r, fam), 'source': r.choice(SOURCES), 'build': r.choice(BUILDS),
+            'prog': r.choice(sorted(progs().PROGS)), 'x': str(Fraction(r.randint(3, 40), 8)), 'y': str(Fraction(r.randint(9, 40), 8)),
+            'script_seed': r.randrange(1 << 30)}
+
+
+def run_prog_case(case: dict) -> dict:
+    """
+    A whole function under a stochastic context: the interpreter must route every rounded
+    operation through the context's source -- one k-bit draw each -- and nothing else.
+    """
+    import fpy2 as fp
+    info: dict = {'skipped': None, 'route': 'program:' + case['prog']}
+    violations = []
+
+    def skip(why):
+        info['skipped'] = why
+        return {'violations': [], 'info': info}
+
+    def vio(cls, detail):
+        sig = {'cls': cls, 'family': case['family'], 'mode': case['mode'], 'position': 'program', 'route': info['route'],
+               'build': case.get('build', 'ctor')}
+        violations.append({'property': PROP, 'cls': cls, 'signature': sig, 'detail': detail, 'case': case, 'info': dict(info)})
+
+    fn = getattr(progs(), case['prog'])
+    nops = progs().PROGS[case['prog']]
+    x, y = Fraction(case['x']), Fraction(case['y'])
+    k = case['k']
+
+    def det(mode):
+        c = _ctor_context(dict(case, k=0, mode=mode), None)
+        return fn(x, y, ctx=c)
+
+    try:
+        lo = det('RTZ')
+        hi = det('RAZ')
+    except Exception as e:
+        return skip(f'format too small for this program: {type(e).__name__}')
+    for v in (lo, hi):
+        if not isinstance(v, fp.Float) or v.is_nar() or v.is_zero():
+            return skip('format too small for this program')
+    lo_q, hi_q = lo.as_rational(), hi.as_rational()
+    log, rng_obj = _sources(case['source'])
+    decoy_log = SourceLog()
+    try:
+        ctx = build_context(case, rng_obj, decoy_log)
+    except (ValueError, TypeError) as e:
+        return skip(f'context rejected: {type(e).__name__}')
+
+    def ev(script):
+        log.calls.clear()
+        log.script = script
+        log.pos = 0
+        log.fail_at = None
+        try:
+            if rng_obj is None:
+                with GlobalPatch(log):
+                    out = fn(x, y, ctx=ctx)
+            else:
+                out = fn(x, y, ctx=ctx)
+        except Exception as e:
+            return {'exc': type(e).__name__}, list(log.calls)
+        return out, list(log.calls)
+
+    sr = random.Random(case['script_seed'])
+    K = (1 << k) - 1
+    scripts = {'zeros': [0], 'ones': [K], 'rand1': [sr.randrange(K + 1) for _ in range(16)],
+               'rand2': [sr.randrange(K + 1) for _ in range(16)]}
+    info['draws_swept'] = 0
+    for name, script in scripts.items():
+        out, calls = ev(script)
+        info['draws_swept'] += len(calls)
+        if isinstance(out, dict):
+            vio('program-raised', {'script': name, 'got': out})
+            break
+        if len(calls) != nops:
+            vio('program-draw-count', {'script': name, 'draws': len(calls), 'rounded_operations': nops})
+            break
+        if any(kk != k for kk, _ in calls):
+            vio('draw-width', {'script': name, 'requested': sorted({kk for kk, _ in calls}), 'k': k})
+            break
+        if out.is_nar():
+            vio('program-result-not-finite', {'script': name})
+            break
+        q = out.as_rational()
+        if not (lo_q <= q <= hi_q):
+            vio('program-result-outside-directed-bounds', {'script': name, 'got': str(q), 'rtz': str(lo_q), 'raz': str(hi_q)})
+            break
+        out2, calls2 = ev(script)
+        if isinstance(out2, dict) or out2.as_rational() != q or calls2 != calls:
+            vio('not-a-function-of-draw', {'script': name})
+            break
+        if name == 'zeros' and case['mode'] == 'RTZ' and q != lo_q:
+            vio('program-zeros-script-is-not-rtz', {'got': str(q), 'rtz': str(lo_q)})
+            break
+        if name == 'ones' and case['mode'] == 'RAZ' and q != hi_q:
+            vio('program-ones-script-is-not-raz', {'got': str(q), 'raz': str(hi_q)})
+            break
+    if decoy_log.calls:
+        vio('replaced-source-still-used', {'draws': list(decoy_log.calls)[:4], 'build': case.get('build')})
+    info['nops'] = nops
+    return {'violations': violations, 'info': info}
+
+
+# --------------------------------------------------------------------------
 # one simulated run = one seed = one swarm configuration and its cases
 
 def run(seed: int, tier: str) -> dict:
@@ -810,6 +942,17 @@ def run(seed: int, tier: str) -> dict:
     modes = r.sample(MODES, r.randint(1, 4))
     wants = r.sample(POSITIONS, r.randint(1, 4))
     ncases = r.randint(6, 14)
+    for pi in range(2):
+        pcase = gen_prog_case(r, tier)
+        pout = run_prog_case(pcase)
+        st.count('program_cases', 'skipped' if pout['info'].get('skipped') else 'decided')
+        if not pout['info'].get('skipped'):
+            st.count('program_cases', pcase['prog'])
+            st.count('draws_swept', 'total', pout['info'].get('draws_swept', 0))
+            st.add('distinct', f"prog|{pcase['family']}|{pcase['mode']}|{pcase['k']}|{pcase['prog']}|{pcase['source']}|{pcase['build']}")
+        for v in pout['violations']:
+            v['seed'] = seed
+            violations.append(v)
     for ci in range(ncases):
         case = gen_case(r, tier, {'family': r.choice(fams), 'mode': r.choice(modes), 'want': r.choice(wants)})
         out = run_case(case)
@@ -848,7 +991,7 @@ def run(seed: int, tier: str) -> dict:
 
 
 def same_failure(case: dict, cls: str) -> bool:
-    out = run_case(case)
+    out = run_prog_case(case) if case.get('type') == 'prog' else run_case(case)
     return any(v['cls'] == cls for v in out['violations'])
 
 
@@ -860,6 +1003,8 @@ def minimise(v: dict) -> dict:
         v['minimised'] = False
         return v
     steps = [('route', 'round'), ('enc', 'real'), ('source', 'Random'), ('n_delta', 0), ('build', 'ctor')]
+    if case.get('type') == 'prog':
+        steps = [('source', 'Random'), ('build', 'ctor')]
     for key, val in steps:
         if case.get(key) != val:
             c2 = dict(case, **{key: val})
@@ -871,7 +1016,7 @@ def minimise(v: dict) -> dict:
             if same_failure(c2, cls):
                 case = c2
                 break
-    out = run_case(case)
+    out = run_prog_case(case) if case.get('type') == 'prog' else run_case(case)
     vv = [x for x in out['violations'] if x['cls'] == cls][0]
     vv['seed'] = v.get('seed', 0)
     vv['minimised'] = True
@@ -882,7 +1027,7 @@ def replay(path: str) -> int:
     import json
     with open(path) as f:
         v = json.load(f)
-    out = run_case(v['case'])
+    out = run_prog_case(v['case']) if v['case'].get('type') == 'prog' else run_case(v['case'])
     hits = [x for x in out['violations'] if x['cls'] == v['cls']]
     if hits:
         print(f"VIOLATION property={PROP} replay={path}")
@@ -925,6 +1070,7 @@ def main(tier: str) -> int:
         'by_build_route': dict(c.get('build', {})),
         'by_k': dict(c.get('k', {})),
         'by_offset': dict(c.get('offset', {})),
+        'program_route_cases': dict(c.get('program_cases', {})),
         'skipped': dict(c.get('skipped', {})),
         'components': {
             'real': ['fpy2.number.number.reals (RealFloat.round/_round_at_stochastic)', 'all *Context.round/round_at/round_params',
